@@ -60,6 +60,19 @@ CHECKS["C12"] = dict(
     design_ref="DESIGN.md section 3 / C12",
 )
 
+CHECKS["C02"] = dict(
+    category="other",
+    text=("Clause-level: the rejection structure of RFC 8554 Algorithms 6a/6 is decided as guard facts over the MIR of the functions reachable "
+          "from the three verification entry points - level-count equality, both type-code comparisons, leaf-index range, whole-value root "
+          "comparison, tested result of every per-level verification with key/message chaining through signed public key i, exact-length "
+          "comparison in both top-level parsers - each located by data dependence on the fields involved and required to lie on every path to the "
+          "code it protects with its failing edge reaching only error returns; plus acceptance provenance (no other ok-capable return). "
+          "NOT decided: that valid triples are accepted, nor that the compared hashes are the RFC's (C07)."),
+    note="Necessary conditions of 'rejects everything RFC 8554 rejects'. Trusts derived PartialEq of the parameter structs and the field-name table in rules/c02.py (fails closed).",
+    technique="guard-fact analysis: data-dependence located branches + edge dominance on MIR CFGs; return-place provenance; expression-DAG equality",
+    design_ref="DESIGN.md section 3 / C02",
+)
+
 NOT_APPLICABLE = {
     "C01": ("Round-trip completeness (sign then verify succeeds) is equality of two computations over runtime values "
             "(message, seed, counter, 6x4x5^L parameter shapes); no dataflow/typestate fact bounds it. Its structural "
